@@ -206,6 +206,10 @@ theorem C12_mounted {ρ : Type} (m : Remote ρ) (hm : m.Faithful) (spec : StoreS
     simp [FS.read]
   · cases h
 
+/-- `mountedRead` / `mountedWrite` are the shape of the CURRENT `stores/_mounted_store.py` (pinned by the translator: any other
+    shape does not translate) -/
+theorem C12_mounted_source_shape : Gen.FileStore.mountedStoreShape = true := by decide
+
 /-- … in particular a MountedStore over a round-tripping store returns what was written. -/
 theorem C12_mounted_roundtrip {ρ : Type} (m : Remote ρ) (hm : m.Faithful) (spec : StoreSpec) (c : Codec V)
     (hc : c.Roundtrip) (vn : Bool) {stg tgt : α} (hne : stg ≠ tgt) (clock clock' : Nat) (v : V) (chunks : List Bytes) (r : ρ)
